@@ -30,6 +30,10 @@ type Semaphore struct {
 }
 
 func NewSemaphore(max int) Semaphore {
+	if max < 0 {
+		// make panics on negative size.
+		max = 0
+	}
 	return Semaphore{c: make(chan struct{}, max)}
 }
 
